@@ -46,23 +46,11 @@ pub open spec fn toks<T: DiffableStr + ?Sized>(slices: Seq<&T>) -> Seq<Seq<u8>> 
     Seq::new(slices.len(), |i: int| slices[i].bytes())
 }
 
-/// concatenation of the tokens t[i..j]
-pub open spec fn cat(t: Seq<Seq<u8>>, i: int, j: int) -> Seq<u8>
-    decreases j - i
-{
-    if j <= i { Seq::empty() } else { cat(t, i, j - 1) + t[j - 1] }
-}
-
 /// total length of the first i tokens
 pub open spec fn lsum(t: Seq<Seq<u8>>, i: int) -> int
     decreases i
 {
     if i <= 0 { 0 } else { lsum(t, i - 1) + t[i - 1].len() }
-}
-
-/// HYPOTHESIS (tokenizer property C06, not checked here): the tokens partition the source text
-pub open spec fn tokens_partition(source: Seq<u8>, t: Seq<Seq<u8>>) -> bool {
-    cat(t, 0, t.len() as int) == source
 }
 
 /// what `SliceRemapper::new` computes: entry i is the byte range of token i when the tokens are laid out
